@@ -26,6 +26,7 @@
 #include <cstdint>
 #include <functional>
 #include <memory>
+#include <utility>
 #include <vector>
 
 using namespace c20;
@@ -33,6 +34,11 @@ using namespace c20;
 namespace {
 
 int g_calls = 0;
+// constructions / destructions of an over-aligned target at an address that is not a multiple of its alignment (added
+// after seeded breakage c02_inplace_function_swap_tmp_alignment: swap relocated the target through a scratch buffer of
+// aligned_storage_t<Capacity> - default alignment - instead of <Capacity, Alignment>; the call operator only ever sees
+// the object after it has been moved back into properly aligned storage)
+int g_misaligned = 0;
 
 constexpr int code(std::size_t n, bool tracked, int v) { return static_cast<int>(n) * 1000 + (tracked ? 500 : 0) + v * 10; }
 constexpr unsigned char pat(int v, std::size_t i) { return static_cast<unsigned char>(v * 37 + static_cast<int>(i) * 11 + 5); }
@@ -67,6 +73,22 @@ struct alignas(A) Held_ {
     explicit Held_(int v) : t(v)
     {
         for (std::size_t i = 0; i < sizeof b; ++i) { b[i] = pat(v, i); }
+        chk();
+    }
+    Held_(Held_ const& o) : t(o.t)
+    {
+        for (std::size_t i = 0; i < sizeof b; ++i) { b[i] = o.b[i]; }
+        chk();
+    }
+    Held_(Held_&& o) noexcept : t(std::move(o.t))
+    {
+        for (std::size_t i = 0; i < sizeof b; ++i) { b[i] = o.b[i]; }
+        chk();
+    }
+    ~Held_() { chk(); }
+    void chk() const
+    {
+        if (reinterpret_cast<std::uintptr_t>(this) % A != 0) { ++g_misaligned; }
     }
     int operator()(int x)
     {
@@ -171,11 +193,34 @@ void add_alignments(std::vector<Maker<V>>& out)
     }
 }
 
+// runs `fn` with the stack pointer displaced by 0, 16, 32 and 48 bytes, so that a 16-byte aligned temporary inside the
+// callee lands on every residue modulo 64 (an even number of swaps in total: the operands end where they started)
+template <typename Fn>
+[[gnu::noinline]] void call_in_own_frame(Fn& fn) // the callee's locals must live BELOW the displaced stack pointer
+{
+    fn();
+    asm volatile("" ::: "memory");
+}
+template <typename Fn>
+[[gnu::noinline]] void at_stack_offsets(Fn fn)
+{
+    for (std::size_t k = 0; k < 4; ++k) {
+        auto* pad = static_cast<volatile unsigned char*>(__builtin_alloca(16 * k + 1));
+        pad[0]    = static_cast<unsigned char>(k);
+        call_in_own_frame(fn);
+        (void)pad[0];
+    }
+}
+
 struct Env {
     Ck& ck;
     std::string cfg;
     void lifetimes(std::string const& subj, std::string const& cls, std::string const& kase, std::size_t want_live)
     {
+        if (g_misaligned != 0) {
+            ck.r.violation("C02", subj, cls + "/misaligned_target", kase, cat(g_misaligned, " construction(s)/destruction(s) of the stored target at an address that is not a multiple of its alignment"));
+            g_misaligned = 0;
+        }
         for (auto const& e : registry().take_errors()) { ck.r.violation("C03", subj, cat(cls, "/lifetime:", e), kase, e); }
         auto const live = registry().live_count();
         if (live != want_live) {
@@ -300,6 +345,7 @@ struct Config {
                 {
                     auto f = i.make_rvalue(1);
                     auto g = j.make_rvalue(2);
+                    at_stack_offsets([&] { (**f).swap(**g); }); // four swaps at different stack depths: back to the start
                     (**f).swap(**g);
                     auto const a = cat(call_text(**f, 1), ",", call_text(**g, 2));
                     ck.eq("inplace_function::swap(inplace_function&)", cls, kase + ": f.swap(g): f,g", a, cat(want_text(j, 2, 1), ",", want_text(i, 1, 2)));
